@@ -94,6 +94,19 @@ fn main() {
             }
         }
         "selftest" => props::selftest(),
+        "gen-fixtures" => {
+            let p = props::c06::fixtures_path();
+            match std::fs::write(&p, props::c06::fixtures_source()) {
+                Ok(()) => {
+                    outln!("wrote {}", p.display());
+                    0
+                }
+                Err(e) => {
+                    outln!("cannot write {}: {}", p.display(), e);
+                    2
+                }
+            }
+        }
         _ => usage(),
     };
     run::cleanup_work_root();
